@@ -274,7 +274,7 @@ def circle_sqr_len(case, p=None):
 # when the entry says that a contact d = 0 is reported at such a point)
 ROUTED_KINDS = {
     "F20": {"off-primitive", "inconsistent"}, "F21": {"off-primitive"}, "FD4": {"off-primitive"},
-    "FD5": {"off-primitive"}, "FD7": {"off-primitive"}, "FD8": {"off-primitive"},
+    "FD5": {"off-primitive"}, "FD8": {"off-primitive"},
 }
 
 
@@ -307,10 +307,7 @@ def known_id(case, r):
             return "FD8"      # end point clamp delegates to point_to_circle with an end point on the axis
         if m0 is not None and 1e-20 <= m0 < 1e-12:
             return "FD5"
-        lx = r.get("lpxn_sq") if isinstance(r, dict) else None
-        if (m0 is not None and lx is not None and m0 < 1e-20 and lx < 1e-20 * max(1.0, pl.scale_L(case["A"], case["B"]) ** 2)
-                and (m0 > 0.0 or lx > 0.0)):
-            return "FD7"          # the line is the circle's axis up to rounding (but not exactly: then the code is right)
+        # FD7 (axis line up to rounding returns the centre) is FIXED in /repo: no routing; its replay is in corpus/C10
     return None
 
 
